@@ -96,6 +96,11 @@ def run_rules(pid, ruleset, ctx):
         except AnchorMissing as e:
             obs.append(Ob(e.rule, "anchor-missing:" + e.anchor, False,
                           "cannot decide: anchor `%s` not found %s" % (e.anchor, e.why)))
+        except factsmod.MissingBody as e:
+            # a function the rule is anchored in no longer exists under that name: cannot decide (fail closed), not a crash
+            name = getattr(rule_fn, "__name__", "rule")
+            obs.append(Ob(name.upper().replace("_", "-"), "anchor-missing:" + str(e.args[0]), False,
+                          "cannot decide: function `%s` not found" % (e.args[0],)))
     return obs
 
 
